@@ -58,4 +58,27 @@ with open(os.path.join(OUT, "MATRIX.md"), "w") as f:
     f.write("| seed | breaks | " + " | ".join(p[1:] for p in PROPS) + " | change |\n|---|---|" + "---|" * len(PROPS) + "---|\n")
     for sid, prop, row, summ in rows:
         f.write("| %s | %s | %s | %s |\n" % (sid, prop, " | ".join(row.get(p, " ") for p in PROPS), summ.replace("|", "/")))
-print("seeds:", len(rows))
+# ---- harmless rewrites (must stay silent) and patches against the repository's own history
+H = os.path.join(OUT, "harmless"); os.makedirs(H, exist_ok=True)
+hnotes = {"h1": "to_frames: `len <= 8` written as `len < 9`", "h2": "a decoder's size and error-type guards swapped (both reject; the order is not observable through the properties' views)",
+          "h3": "USART decoder: the two halves of the size condition reordered", "h4": "USART receiver body loop `while len < n` written as `for _ in 0..n`"}
+hrows = []
+for h in sorted(os.listdir(os.path.join(ST, "Z")), key=lambda x: int(x[1:])):
+    d = os.path.join(ST, "Z", h); o = os.path.join(H, h); os.makedirs(o, exist_ok=True)
+    shutil.copy(os.path.join(d, "patch.diff"), o)
+    meta = json.load(open(os.path.join(d, "meta.json"))) if os.path.exists(os.path.join(d, "meta.json")) else {"summary": hnotes.get(h, "")}
+    row = cells.get("Z/%s" % h, {})
+    meta_out = dict(id="harmless-" + h, summary=meta.get("summary"), why_harmless=meta.get("why_harmless"), files_changed=meta.get("files_changed"),
+                    author="hand-written" if h in hnotes else "independent sub-agent given the 19 property texts and a scratch worktree of /repo, asked for risky-looking but property-preserving rewrites",
+                    checks=dict(how="tools/matrix.sh (every quick check, RP_REPO = scratch copy with the patch)", alarms=[p for p in PROPS if row.get(p) in ("V", "d")],
+                                silent=[p for p in PROPS if row.get(p) == "."], not_run=[p for p in PROPS if p not in row or row.get(p) == "!"]))
+    json.dump(meta_out, open(os.path.join(o, "meta.json"), "w"), indent=1)
+    hrows.append((h, row, (meta.get("summary") or "")[:110]))
+with open(os.path.join(OUT, "MATRIX.md"), "a") as f:
+    f.write("\n# Harmless rewrites x quick checks (every cell must be `.`)\n\n| rewrite | " + " | ".join(p[1:] for p in PROPS) + " | change |\n|---|" + "---|" * len(PROPS) + "---|\n")
+    for h, row, summ in hrows:
+        f.write("| %s | %s | %s |\n" % (h, " | ".join(row.get(p, " ") for p in PROPS), summ.replace("|", "/").replace("\n", " ")))
+R = os.path.join(OUT, "history"); os.makedirs(R, exist_ok=True)
+for fn in sorted(os.listdir(os.path.join(ST, "R"))):
+    shutil.copy(os.path.join(ST, "R", fn), R)
+print("seeds:", len(rows), "harmless:", len(hrows))
